@@ -138,6 +138,9 @@ type c09victim struct {
 	connected bool
 	// index into S's handler-call log at which this incarnation began
 	callMark int
+	// a victim that is a full onet server (class treereq-tcp)
+	isServer bool
+	srv      *onet.Server
 }
 
 type c09world struct {
@@ -154,6 +157,7 @@ type c09world struct {
 	rhOut  int64 // ... and returned
 	// tree-node instances that live across operations
 	ptni        map[int]*c09ptni
+	trees       map[int]*c09tree
 	selfGot     int64
 	silentClass bool
 	oldTimeout  time.Duration
@@ -269,6 +273,9 @@ func (w *c09world) identity(v *c09victim, a network.Address) *network.ServerIden
 
 // start brings the victim's router up on its fixed address.
 func (w *c09world) start(v *c09victim) error {
+	if v.isServer {
+		return w.startServer(v)
+	}
 	var r *network.Router
 	if w.tcp {
 		if v.own == nil {
@@ -338,7 +345,14 @@ func (w *c09world) stop(v *c09victim) {
 	}
 	v.up = false
 	done := make(chan bool)
-	go func() { v.r.Stop(); close(done) }()
+	go func() {
+		if v.isServer {
+			v.srv.Close()
+		} else {
+			v.r.Stop()
+		}
+		close(done)
+	}()
 	select {
 	case <-done:
 	case <-time.After(15 * time.Second):
@@ -366,7 +380,9 @@ func (w *c09world) open(tr string, ups []int) string {
 			return "harness-error"
 		}
 	case w.tcp:
-		w.dialTO = time.Second // the package's default, set explicitly so that the bound below is the configured one
+		// configured (SetTCPDialTimeout is the package's own knob; its default is 1 s): the bound the
+		// sends are held to below is computed from this value
+		w.dialTO = 500 * time.Millisecond
 		network.SetTCPDialTimeout(w.dialTO)
 		w.lt = onet.NewTCPTest(fix.Suite)
 	default:
@@ -428,6 +444,8 @@ func (w *c09world) close() {
 		if w.oldTimeout != 0 {
 			network.VerifSetReadTimeout(w.oldTimeout)
 		}
+		// instances created by incoming messages: closing a cluster waits for instances that linger
+		fix.DoneAll()
 		if w.lt != nil {
 			w.lt.CloseAll()
 		} else {
@@ -1193,7 +1211,7 @@ func c09exec(c *h.Ctx, cs *h.Case) {
 		os.Setenv("CONODE_SERVICE_PATH", c.Workdir)
 	}
 	w := &c09world{cs: cs, c: c, victims: map[int]*c09victim{}, tags: map[string]bool{},
-		rh: map[int]*network.ServerIdentity{}, rhPeer: map[int]int{}, ptni: map[int]*c09ptni{}}
+		rh: map[int]*network.ServerIdentity{}, rhPeer: map[int]int{}, ptni: map[int]*c09ptni{}, trees: map[int]*c09tree{}}
 	defer w.close()
 	cs.NoModel = strings.HasPrefix(cs.Class, "cut") || strings.HasPrefix(cs.Class, "orphan")
 	for _, op := range cs.Ops {
@@ -1311,6 +1329,12 @@ func c09exec(c *h.Ctx, cs *h.Case) {
 				}
 				w.tag("conns:" + strconv.Itoa(c09bucketN(n)))
 			}
+		case len(tk) == 3 && tk[1] == "speer":
+			obs = w.speer(tk[2])
+		case len(tk) == 4 && (tk[1] == "orphanmsg" || tk[1] == "treesend"):
+			obs = w.treeMsg(tk[1], tk[2], tk[3])
+		case len(tk) == 5 && tk[1] == "backlog":
+			obs = w.backlog(tk[2], tk[3], tk[4])
 		case len(tk) == 5 && tk[1] == "tni":
 			obs = w.tniNew(tk[2], tk[3], tk[4])
 		case len(tk) == 3 && tk[1] == "tcfg":
